@@ -33,7 +33,13 @@ type RdrSpec struct {
 // PubReadBody builds a body: publishers and readers run concurrently on path "p"; the main task waits for
 // the publishers, lets everything settle, then shuts the manager down (which closes what is still attached).
 func PubReadBody(c *conf.Conf, pubs []PubSpec, rdrs []RdrSpec, hooks bool) func() {
+	return PubReadBodyOpt(c, pubs, rdrs, hooks, false)
+}
+
+// PubReadBodyOpt is PubReadBody with the fixture's media kind selectable (audio: one G.711 track).
+func PubReadBodyOpt(c *conf.Conf, pubs []PubSpec, rdrs []RdrSpec, hooks bool, audio bool) func() {
 	return func() {
+		Audio = audio
 		Live = nil // the invariant must not look at the previous execution
 		pm := New(c, AllowAll{}, hooks)
 		Live = pm
@@ -200,6 +206,12 @@ func idx(trace []string, line string, from int) int {
 
 // CheckPublishers is the C16 oracle on a trace of PubReadBody.
 func CheckPublishers(override bool) func(o *vsched.Outcome) (string, string) {
+	return CheckPublishersOpt(override, false)
+}
+
+// CheckPublishersOpt: sameStream = the path is always available, i.e. one stream object outlives its
+// publishers; then no unit written after a replacement may reach ANY reader, and a reader may see two publishers.
+func CheckPublishersOpt(override bool, sameStream bool) func(o *vsched.Outcome) (string, string) {
 	return func(o *vsched.Outcome) (string, string) {
 		tr := strings.Join(o.Trace, ", ")
 		if o.Failure != "" {
@@ -252,11 +264,11 @@ func CheckPublishers(override bool) func(o *vsched.Outcome) (string, string) {
 			case "got":
 				r, u := w[1], w[2]
 				x := u[:1]
-				if prev, ok := gotFrom[r]; ok && prev != x {
+				if prev, ok := gotFrom[r]; ok && prev != x && !sameStream {
 					return "mixed-publishers", fmt.Sprintf("reader %s received units of two publishers on one stream | %s", r, tr)
 				}
 				gotFrom[r] = x
-				if ra, ok := replacedAt[x]; ok && beginAt[u] > ra && readingAt[r] > ra {
+				if ra, ok := replacedAt[x]; ok && beginAt[u] > ra && (readingAt[r] > ra || sameStream) {
 					return "stale-publisher-data", fmt.Sprintf("unit %s was written after %s had been replaced/removed and still reached reader %s attached afterwards | %s", u, x, r, tr)
 				}
 			}
